@@ -117,11 +117,25 @@ func EachLine(f func(fields []string) string) {
 	}
 }
 
+var exitFuncs []func()
+
+// OnExit registers a clean-up to run when the op loop ends (temp dirs of lazily initialised handlers).
+func OnExit(f func()) { exitFuncs = append(exitFuncs, f) }
+
+// RunOnExit runs the registered clean-ups.
+func RunOnExit() {
+	for _, f := range exitFuncs {
+		f()
+	}
+	exitFuncs = nil
+}
+
 // Dispatch reads ops from stdin and routes each by its first token.
 func Dispatch(handlers map[string]func([]string) string) {
 	in := bufio.NewReaderSize(os.Stdin, 1<<22)
 	out := bufio.NewWriterSize(os.Stdout, 1<<16)
 	defer out.Flush()
+	defer RunOnExit()
 	for {
 		line, err := in.ReadString('\n')
 		if len(line) > 0 {
